@@ -91,7 +91,9 @@ def inv_permutation(permutation: torch.Tensor) -> torch.Tensor:
     tensor([1, 2, 0])
     """
     inv_perm = torch.empty_like(permutation)
-    inv_perm[permutation] = torch.arange(len(permutation))
+    inv_perm[permutation] = torch.arange(
+        len(permutation), dtype=permutation.dtype, device=permutation.device
+    )
     return inv_perm
 
 
